@@ -200,6 +200,36 @@ class Prov:
     def of_return(self, body, path=()):
         return self.of_local(body, 0, path)
 
+    def through_callers(self, atoms, depth=2):
+        """replace the parameter atoms of PRIVATE functions (not reachable from the public API) by the provenance of the arguments
+        at their call sites inside the crate: `fn helper(total: usize)` called as `helper(self.genes.len())`"""
+        out = set(atoms)
+        for _ in range(depth):
+            changed = False
+            for a in list(out):
+                if a[0] != "param":
+                    continue
+                b = self.prog.bodies.get(a[1])
+                if b is None or b.kind not in ("Fn", "AssocFn") or b.reachable or b.impl_trait:
+                    continue
+                sites = [(cb, t) for cb, bi, t in self.prog.callers_of(b.id)] if hasattr(self.prog, "callers_of") else []
+                got = False
+                for cb, t in sites:
+                    i = a[2] - 1
+                    if 0 <= i < len(t.args):
+                        # caller side without mutation smear: `helper(&mut xs, n)` makes n flow into xs, and xs is what the other
+                        # parameter is read from
+                        if getattr(self, "_nomut", None) is None:
+                            self._nomut = Prov(self.prog, inline=self.inline, mutflow=False) if self.mutflow else self
+                        out |= self._nomut.of_operand(cb, t.args[i], a[3] if len(a) > 3 else ())
+                        got = True
+                if got:
+                    out.discard(a)
+                    changed = True
+            if not changed:
+                break
+        return frozenset(out)
+
     def _resolve_in_ctx(self, body, op, ctx):
         out = set()
         self._operand(body, op, (), ctx, out, set())
